@@ -5,6 +5,8 @@ import (
 	"fmt"
 	"os"
 	"os/exec"
+
+	ndnlog "github.com/named-data/ndnd/std/log"
 )
 
 // replayDoc records everything needed to re-execute one case.
@@ -43,6 +45,8 @@ func replayFile(path string, max int) int {
 			Chunk                int
 			UseMask              bool `json:"use_mask"`
 			Mask                 uint32
+			Transport            string
+			MtuPlan              []mtuEvent `json:"mtu_plan"`
 		}
 	}
 	if err := json.Unmarshal(raw, &doc); err != nil {
@@ -61,7 +65,7 @@ func replayFile(path string, max int) int {
 		fmt.Println("CHECK-ERROR: findings of the free-running race pass have no deterministic replay")
 		return 2
 	}
-	if r.Pass == "real" && max != realMax {
+	if (r.Pass == "real" || r.Pass == "transport") && max != realMax {
 		bin, err := buildChild()
 		if err != nil {
 			fmt.Printf("CHECK-ERROR: %v\n", err)
@@ -76,6 +80,46 @@ func replayFile(path string, max int) int {
 			return 2
 		}
 		return 0
+	}
+	if r.Pass == "transport" {
+		var st *stream
+		if len(r.Forms) > 0 {
+			var forms []blockForm
+			for _, f := range r.Forms {
+				forms = append(forms, blockForm{f[0], f[1]})
+			}
+			st = must(mkStream(r.Stream, forms))
+		} else {
+			for _, s := range trStreams(max) {
+				if s.name == r.Stream {
+					st = s
+				}
+			}
+		}
+		if st == nil {
+			fmt.Printf("CHECK-ERROR: cannot rebuild stream %q\n", r.Stream)
+			return 2
+		}
+		var err error
+		if trFactory, err = newSockFactory(); err != nil {
+			fmt.Printf("CHECK-ERROR: %v\n", err)
+			return 2
+		}
+		defer trFactory.close()
+		ndnlog.SetLevel(ndnlog.FatalLevel)
+		c := &trCase{kind: r.Transport, st: st, chunk: r.Chunk, cuts: r.Cuts, plan: r.MtuPlan}
+		v, err := runTrCase(c, max)
+		fmt.Printf("%s: stream %q: %d bytes, %d blocks; %s\n", c.target(), st.name, len(st.data), st.blocks(), c.describe())
+		if err != nil {
+			fmt.Printf("CHECK-ERROR: %v\n", err)
+			return 2
+		}
+		if v == nil {
+			fmt.Println("REPLAY property=C11: no violation")
+			return 0
+		}
+		fmt.Printf("REPLAY property=C11 clause=%s key=%q :: %s\n", v.clause, c.target()+": "+v.symptom, v.detail)
+		return 1
 	}
 	if r.Pass == "scaled" && max != scaledMax {
 		fmt.Printf("CHECK-ERROR: a scaled-pass replay needs the scaled build (run through ./check)\n")
